@@ -1432,6 +1432,11 @@ fn gen_rw_readers_then_writer(rng: &mut Rng) -> Program {
 /// takes the messages with a mix of `recv` and `try_recv` and reads the cell that belongs to the
 /// message it got (each receive must synchronise with ITS send).
 pub fn gen_chan_mp(rng: &mut Rng) -> Program {
+    match rng.below(5) {
+        0 => return gen_chan_drop_acquires(rng),
+        1 => return gen_chan_send_vs_drop(rng),
+        _ => {}
+    }
     let mut vs = ValueSrc::new();
     let k = rng.range(2, 3);
     let mut p = Program { n_chan: 1, n_cell: k as u8, ..Default::default() };
@@ -1481,6 +1486,65 @@ pub fn gen_chan_mp(rng: &mut Rng) -> Program {
             recv.push(Op::DropRx { c: 0 });
             p.threads = vec![vec![Op::Spawn { t: 1 }, Op::Spawn { t: 2 }, Op::Join { t: 1 }, Op::Join { t: 2 }], sender, recv];
         }
+    }
+    p
+}
+
+/// The receiver is dropped while a message is queued: the drop receives (drains) it, so what the
+/// sender did before the send happens-before what the dropping thread does afterwards. The
+/// dropping thread learns that the message is queued through a relaxed flag only.
+fn gen_chan_drop_acquires(rng: &mut Rng) -> Program {
+    let mut vs = ValueSrc::new();
+    let mut p = Program { atomics: vec![0], n_chan: 1, n_cell: 1, ..Default::default() };
+    let flag = vs.constant();
+    let mut sender = vec![Op::CWrite { c: 0, v: vs.constant() }];
+    let n = rng.range(1, 2);
+    for _ in 0..n {
+        sender.push(Op::Send { c: 0, v: vs.constant() });
+    }
+    sender.push(Op::Store { a: 0, v: flag, o: MO::Rlx });
+    let mut dropper = vec![Op::Await { a: 0, o: MO::Rlx, v: flag }];
+    if n == 2 && rng.chance(1, 2) {
+        dropper.push(Op::Recv { c: 0 });
+    }
+    dropper.push(Op::DropRx { c: 0 });
+    dropper.push(if rng.chance(1, 2) { Op::CRead { c: 0 } } else { Op::CWrite { c: 0, v: vs.constant() } });
+    if rng.chance(1, 2) {
+        let mut t0 = vec![Op::Spawn { t: 1 }];
+        t0.extend(dropper);
+        t0.push(Op::Join { t: 1 });
+        p.threads = vec![t0, sender];
+    } else {
+        p.threads = vec![vec![Op::Spawn { t: 1 }, Op::Spawn { t: 2 }, Op::Join { t: 1 }, Op::Join { t: 2 }], sender, dropper];
+    }
+    p
+}
+
+/// A send racing with the drop of the receiver (which polls first, so that the two are dependent
+/// operations for the exploration): whichever comes first, nothing is left in the channel.
+fn gen_chan_send_vs_drop(rng: &mut Rng) -> Program {
+    let mut vs = ValueSrc::new();
+    let mut p = Program { n_chan: 1, ..Default::default() };
+    let n = rng.range(1, 2);
+    let mut sender = Vec::new();
+    for _ in 0..n {
+        sender.push(Op::Send { c: 0, v: vs.constant() });
+    }
+    let mut rx = Vec::new();
+    for _ in 0..rng.range(1, 2) {
+        rx.push(Op::TryRecv { c: 0 });
+    }
+    rx.push(Op::DropRx { c: 0 });
+    if rng.chance(1, 2) {
+        let mut t0 = vec![Op::Spawn { t: 1 }];
+        t0.extend(rx);
+        t0.push(Op::Join { t: 1 });
+        p.threads = vec![t0, sender];
+    } else {
+        let mut t0 = vec![Op::Spawn { t: 1 }];
+        t0.extend(sender);
+        t0.push(Op::Join { t: 1 });
+        p.threads = vec![t0, rx];
     }
     p
 }
